@@ -27,7 +27,11 @@ type scriptGetter struct {
 	headFn   func(trusted *vhdr.Header) (*vhdr.Header, error) // Head() behaviour
 	rangeFn  func(from *vhdr.Header, to uint64) ([]*vhdr.Header, error)
 	headGate chan struct{} // when set, Head blocks until it is closed
+	budget   int           // when > 0: GetByHeight fails with errBudget after that many requests (non-termination guard)
+	nH       int
 }
+
+var errBudget = errors.New("scripted getter: request budget exhausted")
 
 func (g *scriptGetter) add(s string) { g.mu.Lock(); g.log = append(g.log, s); g.mu.Unlock() }
 func (g *scriptGetter) take() []string {
@@ -71,6 +75,13 @@ func (g *scriptGetter) Get(_ context.Context, hash header.Hash) (*vhdr.Header, e
 }
 func (g *scriptGetter) GetByHeight(_ context.Context, h uint64) (*vhdr.Header, error) {
 	g.add(fmt.Sprintf("H:%d", h))
+	g.mu.Lock()
+	g.nH++
+	over := g.budget > 0 && g.nH > g.budget
+	g.mu.Unlock()
+	if over {
+		return nil, errBudget
+	}
 	if g.failH[h] {
 		return nil, errGetter
 	}
